@@ -24,7 +24,9 @@ IsThrow(r) == Len(r) >= 6 /\ SubSeq(r, 1, 6) = "throw:"
 
 NoCall == [id |-> 0, op |-> "", n |-> 0, sz |-> 0, al |-> 0, h |-> 0]
 FreshState ==
-  [comp |-> [name |-> "", fb |-> FALSE, trk |-> FALSE, mixed |-> FALSE, composable |-> FALSE],
+  [comp |-> [name |-> "", fb |-> FALSE, trk |-> FALSE, mixed |-> FALSE, stk |-> FALSE, deep |-> FALSE, composable |-> FALSE],
+   ups |-> <<>>,       \* upstream blocks taken ("ua") / returned ("uf") since the composition exists: [k, sz]
+   grs |-> <<>>,       \* growth / shrinking callbacks of a deep tracker, same shape
    call |-> NoCall,
    leafs |-> <<>>,     \* leaf events of the current request
    trks |-> <<>>,      \* tracker events of the current request
@@ -41,7 +43,7 @@ TrkAllocs(ts) == {i \in 1..Len(ts) : ts[i].op \in {"na", "aa"}}
 TrkDeallocs(ts) == {i \in 1..Len(ts) : ts[i].op \in {"nd", "ad"}}
 Both(c, r, i) == Chk(c, "C09", r, i) \cup (IF st.comp.fb THEN Chk(c, "C08", r, i) ELSE {})
 
-OnComp(e) == Result([st EXCEPT !.comp = e], Chk(e.ok, "X", "UnknownComposition", <<e.name>>))
+OnComp(e) == Result([st EXCEPT !.comp = e, !.ups = <<>>, !.grs = <<>>], Chk(e.ok, "X", "UnknownComposition", <<e.name>>))
 OnCall(e) == Result([st EXCEPT !.call = e, !.leafs = <<>>, !.trks = <<>>],
                     Chk(st.call.id = 0, "X", "NestedCall", <<e.id>>))
 
@@ -58,7 +60,16 @@ OnLeaf(e) ==
      ELSE Result([st EXCEPT !.leafs = Append(@, e)],
             Both(e.r # "unknown", "ReleaseSameLeaf", <<"leaf got memory it does not own", e.L, e.op, e.b, e.off>>))
 
-OnTrk(e) == Result([st EXCEPT !.trks = Append(@, e)], {})
+OnTrk(e) ==
+  IF e.op \in {"gr", "sh"}
+  THEN Result([st EXCEPT !.grs = Append(@, [k |-> IF e.op = "gr" THEN "ua" ELSE "uf", sz |-> e.sz])],
+              Chk(e.alive, "C09", "TrackerCallbackReachesLiveTracker", <<e.op>>))
+  ELSE Result([st EXCEPT !.trks = Append(@, e)], Chk(e.alive, "C09", "TrackerCallbackReachesLiveTracker", <<e.op>>))
+\* a deeply tracked allocator reports every block its arena takes from / returns to the block source, once,
+\* with the size of the block (blocks taken at construction and returned by the destructor are not reported:
+\* the tracker is attached after construction and detached before destruction)
+DeepOk(where) == Chk(~st.comp.deep \/ st.ups = st.grs, "C09", "TrackerSeesEveryGrowthOnce", <<where, st.ups, st.grs>>)
+OnUp(e) == Result([st EXCEPT !.ups = Append(@, [k |-> e.e, sz |-> e.sz])], {})
 
 OnRetWith(c, e) ==
   LET isAlloc == c.op \in {"an", "aa", "tn", "ta"}
@@ -106,7 +117,7 @@ OnRetWith(c, e) ==
                        \cup Both(~(rq.by = "leaf" /\ okD # {}) \/ (d.L = rq.L /\ d.b = rq.lb /\ d.off = rq.loff),
                                  "ReleaseSameLeaf", <<rq.L, d.L, rq.lb, d.b>>)
                        \* served by the library pool: no leaf may be asked to free it, and the pool gets it back
-                       \cup Chk(~(rq.by = "pool" /\ ~refused) \/ (okD = {} /\ BadDeallocs(st.leafs) = {} /\ e.fn1 > e.fn0),
+                       \cup Chk(~(rq.by = "pool" /\ ~refused) \/ (okD = {} /\ BadDeallocs(st.leafs) = {} /\ (st.comp.stk \/ e.fn1 > e.fn0)),
                                 "C08", "ReleasedToServingPool", <<e.fn0, e.fn1, Cardinality(okD)>>)
                        \cup Chk(~(st.comp.trk /\ ~st.comp.fb) \/ refused \/ Cardinality(TrkDeallocs(st.trks)) = 1,
                                 "C09", "TrackerSeesEachSuccessOnce", <<c.op, Len(st.trks)>>)
@@ -114,7 +125,7 @@ OnRetWith(c, e) ==
                                 "C09", "TrackerSeesEachSuccessOnce", <<c.op, Len(st.trks)>>)
                        \cup Chk(TrkAllocs(st.trks) = {}, "C09", "TrackerSeesEachSuccessOnce", <<"alloc callback during release">>))
 
-OnRet(e) == OnRetWith(st.call, e)
+OnRet(e) == LET r == OnRetWith(st.call, e) IN Result(r.s, r.v \cup DeepOk("ret"))
 \* object-creating helpers (allocate_unique, allocate_shared, unique_base_ptr): the shape of the request the
 \* helper has to make (count, sizeof, alignof) is reported with the result
 OnSret(e) ==
@@ -130,14 +141,18 @@ Apply(e) ==
     [] e.e = "fill" -> Result(st, {})
     \* move assignment into a differently configured object and move construction back: no request may reach
     \* a leaf or tracker, nothing may be thrown; the calls that follow are judged as before
-    [] e.e = "xfer" -> Result(st, Chk(e.r = "ok", "C09", "MoveOfAdapterNeverThrows", <<e.r>>))
+    \* (the spare takes a block when it is built and gives it back when it is assigned over: the block
+    \* accounting of a deep tracker starts afresh after the move)
+    [] e.e = "xfer" -> Result([st EXCEPT !.ups = <<>>, !.grs = <<>>], Chk(e.r = "ok", "C09", "MoveOfAdapterNeverThrows", <<e.r>>))
     [] e.e = "call" -> OnCall(e)
     [] e.e = "leaf" -> OnLeaf(e)
     [] e.e = "trk" -> OnTrk(e)
     [] e.e = "ret" -> OnRet(e)
     [] e.e = "sret" -> OnSret(e)
     [] e.e = "end" -> OnEnd(e)
-    [] e.e \in {"ua", "uf", "ux"} -> Result(st, {})
+    [] e.e \in {"ua", "uf"} -> OnUp(e)
+    [] e.e = "ux" -> Result(st, {})
+    [] e.e = "cshrink" -> Result(st, Chk(e.r = "ok", "C09", "ShrinkNeverThrows", <<e.r>>) \cup DeepOk("shrink"))
     [] e.e = "h" -> Result(st, Chk(e.k \notin {"invptr", "overflow"}, "C16", "ValidReleaseNeverReported", <<e.k>>))
     [] e.e = "died" -> Result(st, {V("ANY", "NoCrash", <<e.how, e.code>>)})
     [] e.e = "terminate" -> Result(st, {V("ANY", "NoTerminate", <<>>)})
